@@ -1,11 +1,12 @@
 #!/usr/bin/env python3
 """Print the prompt given to a seeding sub-agent: ONLY the text of one property + a scratch worktree path.
-usage: seed_prompt.py <ID> <worktree> [n_changes] [--hard]
+usage: seed_prompt.py <ID> <worktree> [n_changes] [--hard] [--focus=<areas named in the property text>]
 The agent never sees /verif. Worktree: git -C /repo worktree add --detach <worktree> HEAD (removed afterwards)."""
 import json, sys
 pid, wt = sys.argv[1], sys.argv[2]
 n = int(sys.argv[3]) if len(sys.argv) > 3 and sys.argv[3].isdigit() else 3
 hard = "--hard" in sys.argv
+focus = [a.split("=",1)[1] for a in sys.argv if a.startswith("--focus=")]
 p = [json.loads(l) for l in open('/verif/properties.jsonl') if l.strip()]
 p = [x for x in p if x["id"] == pid][0]
 prop = "Property %s — %s\n\nStatement: %s\n\nQuantifier (%s): %s\n\nWhy the existing tests cannot settle it: %s\n\nCode the property is anchored in: %s\n" % (
@@ -14,13 +15,14 @@ names = [chr(ord('A') + i) for i in range(n)]
 nl = ", ".join(names[:-1]) + " and " + names[-1]
 dirs = ", ".join("%s/_seed/%s/" % (wt, x) for x in names)
 hardtxt = "" if not hard else (" Prefer HARD-TO-REACH changes: ones whose violation needs a DEEP or RARE situation rather than a boundary that any thorough test would visit — for example an interaction of two features, a state only reachable after a long or very specific sequence of operations, arithmetic that only differs for unusual but legal values or counts, behaviour that only differs in one fork / one type / one preset's sizes, two call sites that must cooperate, or effects that cancel out unless observed at a specific moment. Avoid the obvious boundaries (first/last element, empty input, exact limit, simple thresholds).")
+focustxt = "" if not focus else (" To spread the changes over the code the property covers, place them in these areas (one change per area, in this order of preference): " + focus[0] + ".")
 print(f"""You are helping evaluate a verification effort by playing the role of a developer who introduces a subtle regression. Work ONLY inside the scratch git worktree {wt} (a checkout of the Go library protolambda/zrnt — an Ethereum consensus-layer implementation). Do not read or write anything under /repo or /verif. No network. Every shell call must start with: export GOFLAGS=-mod=mod GOPROXY=off GOSUMDB=off GOTOOLCHAIN=local
 
 Here is a semantic property the library is supposed to satisfy:
 
 {prop}
 
-YOUR TASK: produce {n} independent, realistic changes (call them {nl}) to the library source under {wt}/eth2 that each BREAK this property while the code still compiles (`go build ./...`) and the repository's existing test suite still passes (`go test -vet=off -count=1 ./...` from {wt}; most spec-vector tests skip offline — that is expected). Each change should look like a plausible refactoring slip or optimisation bug a maintainer could make (a few lines), NOT sabotage, and should need something SPECIFIC to manifest rather than being exposed at once by ordinary use: e.g. a particular multi-step sequence of operations, an unusual but legal input or configuration, a boundary value, a particular fork or fork-upgrade moment, state that only arises after several steps, or two cooperating sites that each look fine alone. The changes must differ from each other in mechanism and code location.{hardtxt}
+YOUR TASK: produce {n} independent, realistic changes (call them {nl}) to the library source under {wt}/eth2 that each BREAK this property while the code still compiles (`go build ./...`) and the repository's existing test suite still passes (`go test -vet=off -count=1 ./...` from {wt}; most spec-vector tests skip offline — that is expected). Each change should look like a plausible refactoring slip or optimisation bug a maintainer could make (a few lines), NOT sabotage, and should need something SPECIFIC to manifest rather than being exposed at once by ordinary use: e.g. a particular multi-step sequence of operations, an unusual but legal input or configuration, a boundary value, a particular fork or fork-upgrade moment, state that only arises after several steps, or two cooperating sites that each look fine alone. The changes must differ from each other in mechanism and code location.{hardtxt}{focustxt}
 
 For each change deliver, inside {dirs}:
  1. patch.diff — `git diff` of ONLY that change against the worktree's HEAD (produce it with the other changes reverted; the patches must apply independently with `git apply`).
